@@ -44,7 +44,15 @@ func writeCE(v *Violation, path string) error {
 			if m, ok := v.Model[nd.Many[0].name]; ok {
 				mono = m.Uint64()
 			}
-			ce["now.mono"] = append(ce["now.mono"], mono)
+			if v.State.usedUnixMilli && len(nd.Many) > 2 {
+				var ms uint64
+				if m, ok := v.Model[nd.Many[2].name]; ok {
+					ms = m.Uint64()
+				}
+				ce["now.ms"] = append(ce["now.ms"], ms)
+			} else {
+				ce["now.mono"] = append(ce["now.mono"], mono)
+			}
 		default:
 			var val uint64
 			if m, ok := v.Model[nd.Term.name]; ok {
